@@ -265,7 +265,8 @@ impl Mut {
 
     fn judge_alloc(&self, size: usize, align: usize, sem: u8, o: mmtk::util::alloc::AllocationOptions, with_options: bool, obs: &AllocObs) {
         let w = world();
-        let heap = w.cfg.heap_mb << 20;
+        // the maximum heap size (the upper bound of a dynamic heap)
+        let heap = w.cfg.dyn_heap.map(|(_, hi)| hi).unwrap_or(w.cfg.heap_mb) << 20;
         let ctx = || format!("alloc{}(size={}, sem={}, {:?}) on plan {} (heap {} MiB): {:?}", if with_options { "_with_options" } else { "" }, size, sem, o, w.cfg.plan, w.cfg.heap_mb, obs);
         let oc = if o.allow_overcommit { "overcommit" } else { "no-overcommit" };
         let sp = if o.at_safepoint { "safepoint" } else { "not-at-safepoint" };
@@ -1307,11 +1308,21 @@ impl Mut {
         use mmtk::util::alloc::AllocationOptions;
         let w = world();
         let cfg = w.cfg.clone();
-        let heap = cfg.heap_mb << 20;
+        let heap = cfg.dyn_heap.map(|(_, hi)| hi).unwrap_or(cfg.heap_mb) << 20;
         let t = SCRATCH;
         for round in 0..rounds {
             if w.done.load(Ordering::Relaxed) {
                 return;
+            }
+            if let Some((lo, hi)) = cfg.dyn_heap {
+                // a dynamic heap that is still small: requests above the *current* size but below
+                // the maximum are not "larger than the maximum heap" (raw memory, never initialised)
+                for mb in [(lo + hi) / 2, hi - 1, lo + 1] {
+                    world::safepoint_poll();
+                    let _ = self.raw_alloc(mb << 20, 8, 0, SEM_LOS);
+                    with_report("C10", |r| r.count("requests_between_current_and_maximum_heap", 1));
+                }
+                self.op_user_gc(false);
             }
             // ---- A: fill -------------------------------------------------------------------------
             let mut root = 0usize;
